@@ -22,18 +22,14 @@ import (
 // range moved down by j; alone or next to the true entry; every peer the same,
 // different ones, one honest among them).
 
-// lagSafe adjusts a call for a block up blocks above the filter-header tip so
-// that the client's range arithmetic stays inside what MakePlan's lag phase has
-// always exercised: with the stop height limited to the filter-header tip and
-// the start height above it, the number of filters asked for goes negative,
-// and below -1 the header store is asked for a ~4 GB buffer (uint32
-// wrap-around), which the call survives with an error but 16 parallel
-// children may not. Unbatched and forward calls therefore stay within two
-// blocks of the filter-header tip, reverse batches are at least up wide.
+// lagSafe keeps reverse batches at least up wide. (Until fix 3c-range, see
+// DESIGN 10.2, it also held unbatched and forward calls within two blocks of
+// the filter-header tip: further up the client's range arithmetic went
+// negative and the header store was asked for a ~4 GiB buffer through a uint32
+// wrap-around. That was the harness tiptoeing around a defect of the client;
+// the calls now go as far up as the lag reaches and the resource monitor of
+// the runner watches the process.)
 func lagSafe(c *Call) {
-	if c.Batch != "rev" && c.Up > 2 {
-		c.Up = 2
-	}
 	if c.Batch == "rev" && c.Cap > 0 && c.Cap < int64(c.Up) {
 		c.Cap = int64(c.Up)
 	}
@@ -260,11 +256,16 @@ func fixedLagPlan(j int) Plan {
 					sameSpec(1, Spec{Kind: KLagShift, Rel: RelToFilterTip, Pos: "target", Push: true, Order: "reverse"}),
 				}},
 			{Depth: 3, Extra: 1, // two uncommitted blocks and the committed tip block are replaced
-				Calls: []Call{above(1, "none", 0), above(4, "rev", 6), above(2, "none", 0)},
+				// The last two: unbatched and forward calls for blocks at the far
+				// end of the lag (start height of the range 3-4 above the
+				// filter-header tip the stop height is limited to).
+				Calls: []Call{above(1, "none", 0), above(4, "rev", 6), above(2, "none", 0), above(4, "none", 0), above(3, "fwd", 5)},
 				Muts: [][]Spec{
 					sameSpec(1, shift(RelToFilterTip, "target", "")),
 					sameSpec(1, shift(RelToFilterTip, "all", "")),
 					sameSpec(1, shift(RelBelowFilterTip, "above", "after")),
+					sameSpec(1, shift(RelToFilterTip, "target", "")),
+					sameSpec(1, Spec{Kind: KHonest}),
 				}},
 		}
 		p.BudgetS = 10
